@@ -232,11 +232,10 @@ def finish (s : AState) : AState :=
             result := some { birth := s2.birth, stoppedSeen := true, digest := s2.log },
             busy := none }
 
-/-- Submission of a payload: refused iff the receiver is gone. -/
-def submit (s : AState) (pl : Payload) (path : Path) (tok : Tok) : Option AState :=
-  if s.chan.rx then
-    some { s with chan := s.chan.enq { pl, tok := (if path = .waiting then tok else .stale) } }
-  else none
+/-- Submission of a payload (callers test `s.chan.rx` first: a submission is refused iff the
+    receiver is gone). On the forcing path the fresh sender clone is dropped at once: stale token. -/
+def push (s : AState) (pl : Payload) (path : Path) (tok : Tok) : AState :=
+  { s with chan := s.chan.enq { pl, tok := (if path = .waiting then tok else .stale) } }
 
 def addOp (s : AState) (o h : Nat) (k : OpKind) (st : OpSt) : AState :=
   { s with ops := s.ops ++ [{ o, h, kind := k, st }] }
@@ -295,15 +294,15 @@ def stepBegin (w : Wiring) (s : AState) (o h : Nat) (k : OpKind) : Option AState
   match s.handleKind h with
   | none => none
   | some hk =>
-    if !kindOk k hk || (s.findOp o).isSome then none else
-    let p := plan w hk o k
-    if !s.reqOk w p.upg then some (s.addOp o h k (.failed .alreadyStopped)) else
-    match p.pl with
-    | none => some (s.beginWait o h k p.join)
-    | some pl =>
-      match s.submit pl p.path (.op o) with
-      | none => some (s.addOp o h k (.failed .send))
-      | some s' => some (s'.beginWait o h k p.join)
+    if !kindOk k hk || (s.findOp o).isSome then none
+    else if !s.reqOk w (plan w hk o k).upg then some (s.addOp o h k (.failed .alreadyStopped))
+    else
+      match (plan w hk o k).pl with
+      | none => some (s.beginWait o h k (plan w hk o k).join)
+      | some pl =>
+        if s.chan.rx then
+          some ((s.push pl (plan w hk o k).path (.op o)).beginWait o h k (plan w hk o k).join)
+        else some (s.addOp o h k (.failed .send))
 
 /-- What a latch awaiter gets. -/
 def latchRes (s : AState) : Option Res :=
@@ -430,14 +429,10 @@ def stepSignal (w : Wiring) (s : AState) (h : Nat) (pl : Payload) (path : Path) 
     Option AState :=
   match s.handleKind h with
   | some .addr =>
-    (match s.submit pl path .stale with
-     | some s' => if ok then some s' else none
-     | none => if ok then none else some s)
+    if s.chan.rx then (if ok then some (s.push pl path .stale) else none)
+    else (if ok then none else some s)
   | some .weakAddr =>
-    if s.reqOk w (w.upgradeReq .weakAddr) then
-      (match s.submit pl path .stale with
-       | some s' => if ok then some s' else none
-       | none => if ok then none else some s)
+    if s.reqOk w (w.upgradeReq .weakAddr) && s.chan.rx then (if ok then some (s.push pl path .stale) else none)
     else (if ok then none else some s)
   | _ => none
 
@@ -456,7 +451,14 @@ def stepQuery (w : Wiring) (s : AState) (h : Nat) (b : Bool) : Option AState :=
 def deadlineAt (s : AState) : Option Nat :=
   if s.cfg.stream then none else s.cfg.timeout.map (fun t => s.clock + t)
 
-def stepCbBegin (s : AState) (cb : Cb) : Option AState :=
+/-- If the source notified before calling `stopped()` the latch would fire here. -/
+def notifyEarly (w : Wiring) (s : AState) : AState :=
+  if w.notifyAfterStopped then s
+  else { s with latch := (if s.latch == .pending then .fired else s.latch) }
+
+def toStopping (s : AState) : AState := { s with phase := .stopping }
+
+def stepCbBegin (w : Wiring) (s : AState) (cb : Cb) : Option AState :=
   match cb, s.phase with
   | .started, .unstarted => some { s with phase := .starting }
   | .started, .rstStopped fresh =>
@@ -478,8 +480,8 @@ def stepCbBegin (s : AState) (cb : Cb) : Option AState :=
        else none
      | [] => none)
   | .finished, .leaving => if s.cfg.stream then some { s with phase := .finishing } else none
-  | .stopped, .leaving => if s.cfg.stream then none else some { s with phase := .stopping }
-  | .stopped, .finishedDone => some { s with phase := .stopping }
+  | .stopped, .leaving => if s.cfg.stream then none else some (s.notifyEarly w).toStopping
+  | .stopped, .finishedDone => some (s.notifyEarly w).toStopping
   | .stopped, .rstBegin => some { s with phase := .rstStopping }
   | _, _ => none
 
@@ -509,9 +511,7 @@ def stepCbEnd (s : AState) (cb : Cb) (ok : Bool) : Option AState :=
     if k == k' && ok then some { s with phase := .idle, busy := none } else none
   | .finished, .finishing => if ok then some { s with phase := .finishedDone, busy := none } else none
   | .stopped, .stopping =>
-    if ok then some { s with phase := .exiting true, busy := none,
-                             latch := (if s.latch == .pending then .fired else s.latch) }
-    else none
+    if ok then some { s with phase := .exiting true, busy := none } else none
   | .stopped, .rstStopping =>
     if ok then some { s with phase := .rstStopped false, busy := none } else none
   | _, _ => none
@@ -554,10 +554,7 @@ def stepWork (s : AState) (d : Nat) : Option AState :=
 def stepCtxSignal (w : Wiring) (s : AState) (req : List Half) (pl : Payload) (path : Path) (ok : Bool) :
     Option AState :=
   if !s.inCallback then none else
-  if s.reqOk w req then
-    (match s.submit pl path .stale with
-     | some s' => if ok then some s' else none
-     | none => if ok then none else some s)
+  if s.reqOk w req && s.chan.rx then (if ok then some (s.push pl path .stale) else none)
   else (if ok then none else some s)
 
 def stepCtxTimer (s : AState) (t : Nat) (k : TimerKind) (d : Nat) : Option AState :=
@@ -595,10 +592,8 @@ def stepTimerArm (w : Wiring) (s : AState) (t due : Nat) : Option AState :=
     (match x.st with
      | .spawned => some (s.setTimer t (.sleeping due))
      | .sleeping _ =>
-       if x.kind = .interval ∧ s.timerDue x ∧ s.reqOk w (w.upgradeReq .weakSender) then
-         (match s.submit (.tick t) (w.timerPath .interval) (.timer t) with
-          | some s' => some (s'.setTimer t (.sleeping due))
-          | none => none)
+       if x.kind = .interval ∧ s.timerDue x ∧ s.reqOk w (w.upgradeReq .weakSender) ∧ s.chan.rx then
+         some ((s.push (.tick t) (w.timerPath .interval) (.timer t)).setTimer t (.sleeping due))
        else none
      | .sending =>
        if x.kind = .intervalWith ∧ !s.chan.isParked (.timer t) then some (s.setTimer t (.sleeping due))
@@ -629,10 +624,8 @@ def stepFire (w : Wiring) (s : AState) (t : Nat) (m : Option Nat) : Option AStat
     (match x.kind, m with
      | .delayedExec, none => some (s.setTimer t .dead)
      | .intervalWith, some m | .delayedSend, some m =>
-       if s.reqOk w (w.upgradeReq .weakSender) then
-         (match s.submit (.msg m none) (w.timerPath x.kind) (.timer t) with
-          | some s' => some (s'.setTimer t .sending)
-          | none => some (s.setTimer t .dead))
+       if s.reqOk w (w.upgradeReq .weakSender) && s.chan.rx then
+         some ((s.push (.msg m none) (w.timerPath x.kind) (.timer t)).setTimer t .sending)
        else some (s.setTimer t .dead)
      | _, _ => none)
   | none => none
@@ -727,7 +720,7 @@ def step (w : Wiring) (s : AState) : Label → Option AState
   | .stopReq h ok => s.stepSignal w h .stop (w.path .addrStop) ok
   | .restartReq h ok => s.stepSignal w h .restart (w.path .addrRestart) ok
   | .query h b => s.stepQuery w h b
-  | .cbBegin cb => s.stepCbBegin cb
+  | .cbBegin cb => s.stepCbBegin w cb
   | .cbEnd cb ok => s.stepCbEnd cb ok
   | .cbAbandon cb => s.stepCbAbandon cb
   | .cbPanic cb => s.stepCbPanic cb
